@@ -3091,6 +3091,57 @@ fn main() {
                                 Err(e) => format!("{{\"client\":\"{}\",\"first_send_resolved\":false,\"others_resolved\":0}}", e),
                             }
                         }
+                        // refused_attach_then_close: the peer answers the client's sender attach with an attach WITHOUT a target (a
+                        //   refusal); the client sends its closing detach; instead of answering it the peer closes the connection with
+                        //   an error. The attach must fail with SessionStopped(..) (which carries the peer's reason), not with the local
+                        //   refusal.
+                        "refused_attach_then_close" => {
+                            use fe2o3_amqp_types::performatives::Close;
+                            let cfg = sp::PeerCfg { credit: None, ..Default::default() };
+                            let peer = tokio::spawn(sp::run(peer_io, sp::PeerCfg { credit: None, ..Default::default() }, move |f: &Frame, _log: &[String]| {
+                                let mut act = sp::Act::default();
+                                match &f.body {
+                                    FrameBody::Attach(_) => {
+                                        let mut answers = sp::default_answers(f, &cfg).0;
+                                        for fr in answers.iter_mut() {
+                                            if let FrameBody::Attach(at) = &mut fr.body {
+                                                at.target = None;
+                                            }
+                                        }
+                                        act.replies = answers;
+                                        act.handled = true;
+                                    }
+                                    FrameBody::Detach(_) => {
+                                        let error = Some(defs::Error::new(defs::AmqpError::InternalError, Some("peer goes away".to_string()), None));
+                                        act.replies.push(Frame::new(0u16, FrameBody::Close(Close { error })));
+                                        act.handled = true;
+                                    }
+                                    FrameBody::Close(_) => {
+                                        act.stop = true;
+                                        act.handled = true;
+                                    }
+                                    _ => {}
+                                }
+                                act
+                            }));
+                            let client = tokio::time::timeout(Duration::from_secs(8), async {
+                                let mut conn = fe2o3_amqp::Connection::builder().container_id("client").open_with_stream(client_io).await.map_err(|_| "open_failed".to_string())?;
+                                let mut session = fe2o3_amqp::Session::begin(&mut conn).await.map_err(|_| "begin_failed".to_string())?;
+                                let r = tokio::time::timeout(Duration::from_secs(3), fe2o3_amqp::Sender::attach(&mut session, "s-1", "q1")).await;
+                                let what = match r {
+                                    Err(_) => "attach_hang".to_string(),
+                                    Ok(Ok(_)) => "attach_ok".to_string(),
+                                    Ok(Err(e)) => format!("{:?}", e).chars().take(70).collect(),
+                                };
+                                let _ = tokio::time::timeout(Duration::from_secs(1), conn.on_close()).await;
+                                Ok::<_, String>(what)
+                            })
+                            .await
+                            .unwrap_or(Err("hang".to_string()));
+                            peer.abort();
+                            let what = client.unwrap_or_else(|e| e);
+                            format!("{{\"attach_result\":{:?},\"reports_the_stop\":{}}}", what, what.starts_with("SessionStopped"))
+                        }
                         // link_split <pieces>: the peer's attach carries max-message-size 16; the client sends ONE message
                         //   whose payload is cut into <pieces> transfers by the link. All frames of the delivery must carry
                         //   the first frame's delivery-id or none, `more` on all but the last, and add up to the payload.
